@@ -11,6 +11,13 @@ Local Open Scope Z_scope.
 Definition written (h : list event) : content :=
   flat_map (fun e => match e with EWrite r _ => [r] | _ => [] end) h.
 
+(* The writer front-end (lib/logx/writer.go: concreteWriter.Info/... -> output -> writeJson / writePlainText /
+   writePlainValue, or logWriter -> log.Logger for NewWriter) is the identity on content: submitting record r
+   hands one slice holding encode r -- r's line in the configured encoding -- to RotateLogger.Write, and the
+   record the worker later processes is that line. A record of the model IS its encoded line (id = which
+   line, rlen = its byte length); `handed` are the lines as they are when the worker writes them. *)
+Definition frontend_ok (accepted handed : content) : Prop := handed = accepted.
+
 (* where the chunk that was rotated into backup F is: still the plain file F; or -- F being gone --
    gzipped once under F.gz, or removed by clean-up (as F or as F.gz) with exactly that content *)
 Definition located (s : state) (F : name) (c : content) : Prop :=
